@@ -156,6 +156,9 @@ func writeBaseline(cf *checkFlags, bl *Baseline, results []*FuncResult) int {
 		bl.Discharged[p] = d
 		bl.Open[p] = o
 		fmt.Printf("baseline %s: %d discharged, %d open\n", p, len(d), len(o))
+		for _, n := range o {
+			fmt.Printf("  OPEN (not claimed, review!): %s\n", n)
+		}
 	}
 	b, _ := json.MarshalIndent(bl, "", " ")
 	os.MkdirAll(filepath.Join(cf.verif, "baseline"), 0o755)
